@@ -219,3 +219,26 @@ def declare(reg, eng):
                           ("C05", "implies(isnone(result), effect_count('aio_submit') == 1 and isnone(effect_result('registerJob')))")],
                  raises={"AssertionError": {"when": []}, "Exception": {"when": []}},
                  modifies=None)
+    declare_notify(reg, eng)
+
+
+def declare_notify(reg, eng):
+    """Token.aio_notify (C09 / C06): a release re-checks *every* waiting dependency of the token (each one is scheduled on its loop);
+    the inner `check` closure is handed to the loop as a value.  CounterToken.create (C08): one token object per name and process."""
+    reg.contracts["Token.aio_notify"].update(dict(
+        no_replay=True, modifies=[], effect="notify",
+        ensures=[("C09", "reached_loop('_dependency')")],
+        loops={"_dependency": {"no_break": True, "body_post": [
+            ("C09", "effect_count('call_soon') == 1 and effect_arg('call_soon', 2) is _dependency and effect_arg('call_soon', 0) is _dependency.loop")]}}))
+    eng.load("CounterToken.create", "tokens.py")
+    reg.klass("TokenRegistry", [], {})
+    reg.contract("CounterToken", params=["name", "path", "count"], fresh="CounterToken", returns="CounterToken", modifies=["fs"], effect="CounterToken.new",
+                 ensures=["result.total == count", "result.path == path"])
+    reg.consts["CounterToken.TOKENS"] = ("term", __import__("pyvc.state", fromlist=["V"]).V(__import__("pyvc.vals", fromlist=["RefV"]).RefV(-777010), "dict[str,CounterToken]"))
+    reg.contract("CounterToken.create", params=["name", "path", "count"], types={"name": "str", "path": "Path", "count": "int"}, returns="CounterToken", no_replay=True,
+                 # a name registered in this process always yields the registered object: two objects on one directory would not
+                 # exclude each other (their thread locks differ and fcntl locks are per process)
+                 ensures=[("C08", "implies(old(haskey(CounterToken.TOKENS, name)) and bool(old(lookup(CounterToken.TOKENS, name))), "
+                                  "result is old(lookup(CounterToken.TOKENS, name)) and no_effect('CounterToken.new'))"),
+                          ("C08", "lookup(CounterToken.TOKENS, name) is result")],
+                 modifies=None)
